@@ -35,11 +35,11 @@ META = {
                   "none/zlib/bzip2 x plain/encrypted/fix-key x 10 length classes around the sector size x 5 content classes incl. the "
                   "stream-one-byte-shorter boundary x ASCII and non-ASCII names x sector checksums; the reference writer also varies "
                   "single-unit/sectored storage, hash-table size incl. full tables, deleted slots, hi-block table, pre-archive data with and "
-                  "without user data header, a same-name entry of another locale): the reference decodes every library-written archive and the "
+                  "without user data header, a same-name entry of another locale, and V3 68-byte headers over classic tables): the reference decodes every library-written archive and the "
                   "library reads every reference-written archive under four spellings. The reference is model-checked for "
                   "RefRead(RefWrite(f,c)) = f on 8/16-byte sectors, and each historical deviation of the library is shown to break that round trip.",
     "level_note": "Trusted: TLC's evaluation of MpqFormat.tla/MpqCrypto.tla/Word32.tla; CPython's zlib/bz2/hashlib. Subset: classic hash/block "
-                  "tables of V1/V2 headers, archives <= ~17 KB (hi-block entries are always 0), no HET/BET, no implode/huffman/ADPCM/LZMA/sparse "
+                  "tables of V1/V2 headers (direction 2 also V3 headers without HET/BET; V4 not), archives <= ~17 KB (hi-block entries are always 0), no HET/BET, no implode/huffman/ADPCM/LZMA/sparse "
                   "payloads, checksum sectors stored raw. Six deviations of the library from the published format were found with this check "
                   "and repaired in /repo (cipher tail d86b8d5, full-path file key f4d4c14, COMPRESS flag of sectored files 9cf2783, per-sector keys "
                   "of uncompressed files 0f74d94, locale preference 20f0bd8, checksum layout 7734a50); they remain in the specification as named "
@@ -412,7 +412,7 @@ def run(ctx, cases_override=None):
         "rejected_by_reason": by_why,
         "exhaustive": False,
     }
-    assumptions = ["classic hash/block tables with V1/V2 headers; HET/BET and implode/huffman/ADPCM/LZMA/sparse payloads are outside the subset",
+    assumptions = ["classic hash/block tables with V1/V2 headers (reference-written archives also with V3 headers, HET/BET positions 0); HET/BET and implode/huffman/ADPCM/LZMA/sparse payloads are outside the subset",
                    "archives <= ~17 KB, so hi-block-table entries and the high header words are always 0; checksum sectors are written raw",
                    "names are UTF-8 strings (the library's API takes &str); spellings tried on read change ASCII case and slash direction only",
                    "zlib/bzip2 streams are produced/consumed by CPython's zlib and bz2 modules; SHA-1 tokens by hashlib"]
